@@ -21,6 +21,8 @@ func HC02RawTWCC() {
 	chunk := vr.NondetBytes(2)
 	tail := vr.NondetBytes(2)
 	vr.Assume(body[2] == 0 && body[3] <= 8) // packet status count 0..8
+	// run-length chunks: run length <= 16 (a long run is legitimate and only makes decoder loops long)
+	vr.Assume(chunk[0]&0x80 != 0 || (chunk[0]&0x1F == 0 && chunk[1] <= 16))
 	raw := []byte{0x8F, 205, 0, 5, 0, 0, 0, 1, 0, 0, 0, 2,
 		body[0], body[1], body[2], body[3], body[4], body[5], body[6], body[7],
 		chunk[0], chunk[1], tail[0], tail[1]}
